@@ -216,12 +216,22 @@ def classify(index, res, scratch):
         prim = [s for s in d.get('spans', []) if s.get('is_primary')]
         others = [s for s in d.get('spans', []) if not s.get('is_primary')]
         placed = False
-        for s in prim + others:
-            fn = s['file_name']
-            rel = fn if fn.startswith('src/') else os.path.join('src', fn)
-            for u in by_file.get(rel, []):
-                a, b = u['range'][0], u['range'][1]
-                if a <= s['byte_start'] <= b:
+        # a diagnostic whose primary span lies in a spliced `bottom` block (e.g. the trait-level `ensures` that a trait-impl
+        # method failed) belongs to the FUNCTION named by one of its other spans ("at the end of the function body"): spans
+        # that fall into a unit are preferred over spans that fall into a bottom block
+        def _hits(want_unit):
+            for s_ in prim + others:
+                fn_ = s_['file_name']
+                rel_ = fn_ if fn_.startswith('src/') else os.path.join('src', fn_)
+                for u_ in by_file.get(rel_, []):
+                    if str(u_['uid']).startswith('B') == want_unit:
+                        continue
+                    if u_['range'][0] <= s_['byte_start'] <= u_['range'][1]:
+                        return [(s_, u_, rel_)]
+            return []
+        for s, u, rel in (_hits(True) or _hits(False)):
+            for _once in (0,):
+                if True:
                     text = ''
                     if s.get('text'):
                         text = ' '.join(t['text'].strip() for t in s['text'])[:300]
@@ -404,7 +414,9 @@ def item_inventory(path, contracted=()):
             elif it.kind in ('struct', 'enum'):
                 head = src[it.start:it.kw]
                 ders = sorted(set(d.strip() for m in re.finditer(r'derive\(([^)]*)\)', head) for d in m.group(1).split(',') if d.strip()))
-                out.append(prefix + '%s %s derive(%s)' % (it.kind, it.name, ', '.join(ders)))
+                # the definition itself (fields, field attributes such as #[serde(..)], repr): derive-generated code depends on it
+                out.append(prefix + '%s %s derive(%s) #%s' % (it.kind, it.name, ', '.join(ders),
+                                                            hashlib.sha256(strip(src[it.start:it.end]).encode()).hexdigest()[:10]))
             elif it.kind == 'mod' and it.children and it.name not in ('tests', 'test'):
                 walk(it.children, prefix + 'mod %s :: ' % it.name)
     walk(items, '')
